@@ -1,6 +1,6 @@
 (* Property C09 — hard and straight-through sampling forward the discretised values. *)
 From Coq Require Import String Reals List Bool.
-From TLX Require Import Model.Bits Model.Poly Model.Relax Gen.Ops Gen.Dispatch.
+From TLX Require Import Model.Bits Model.Poly Model.Relax Gen.Ops Gen.Dispatch Gen.Sampling.
 From TLX Require Import Proofs.RelaxFacts Proofs.C03Facts Proofs.C08Facts Proofs.C09Facts Proofs.C07Real.
 Import ListNotations.
 Local Open Scope R_scope.
@@ -48,6 +48,13 @@ Proof. exact hard_dispatch. Qed.
 Theorem C09_eval_unchanged : forallb eval_rows_ok layer_params = true.
 Proof. exact eval_mode_independent. Qed.
 
+(* the sampling primitives of the current source are, statement by statement, the ones modelled above: the 'hard' gate is the
+   argmax of the logits themselves (not of the rounded softmax), the hard Walsh value thresholds the form itself, and the
+   Gumbel-hard gate is the argmax of logits + noise *)
+Theorem C09_sampling_source : sampling_source_matches = true /\ hard_raw_gate_from_logits = true
+  /\ hard_walsh_thresholds_form = true /\ gumbel_hard_gate_from_perturbed_logits = true.
+Proof. repeat split; reflexivity. Qed.
+
 Eval compute in "PA:C09_ste_value"%string. Print Assumptions C09_ste_value.
 Eval compute in "PA:C09_argmax_softmax"%string. Print Assumptions C09_argmax_softmax.
 Eval compute in "PA:C09_hard_equals_eval"%string. Print Assumptions C09_hard_equals_eval.
@@ -57,3 +64,4 @@ Eval compute in "PA:C09_hard_walsh_value"%string. Print Assumptions C09_hard_wal
 Eval compute in "PA:C09_gumbel_hard_single_gate"%string. Print Assumptions C09_gumbel_hard_single_gate.
 Eval compute in "PA:C09_dispatch"%string. Print Assumptions C09_dispatch.
 Eval compute in "PA:C09_eval_unchanged"%string. Print Assumptions C09_eval_unchanged.
+Eval compute in "PA:C09_sampling_source"%string. Print Assumptions C09_sampling_source.
